@@ -5,8 +5,10 @@
 From Verif Require Export Geom.SvgPath.
 Open Scope Q_scope.
 
+Inductive oq := NoQ | SomeQ (q : Q).           (* an optional attribute *)
+
 Inductive shape :=
-| ShRect (x y w h : Q) (rx ry : option Q)     (* rx / ry attributes, None = absent *)
+| ShRect (x y w h : Q) (rx ry : oq)            (* rx / ry attributes, NoQ = absent *)
 | ShCircle (cx cy r : Q)
 | ShEllipse (cx cy rx ry : Q)
 | ShLine (x1 y1 x2 y2 : Q)
@@ -36,16 +38,16 @@ Definition Qltb (a b : Q) : bool := negb (Qle_bool b a).
 
 (* elements.go:80-102 newRect: a missing rx takes ry's value and conversely;
    parseValue("") = 0 *)
-Definition rect_radii (rx ry : option Q) : Q * Q :=
+Definition rect_radii (rx ry : oq) : Q * Q :=
   match rx, ry with
-  | None, None => (0, 0)
-  | Some a, None => (a, a)
-  | None, Some b => (b, b)
-  | Some a, Some b => (a, b)
+  | NoQ, NoQ => (0, 0)
+  | SomeQ a, NoQ => (a, a)
+  | NoQ, SomeQ b => (b, b)
+  | SomeQ a, SomeQ b => (a, b)
   end.
 
 (* elements.go:104-146 rect.draw *)
-Definition rect_ops (x y width height : Q) (orx ory : option Q) : list shape_op :=
+Definition rect_ops (x y width height : Q) (orx ory : oq) : list shape_op :=
   if Qle_bool width 0 || Qle_bool height 0 then [] else
   let '(rx0, ry0) := rect_radii orx ory in
   if Qeq_bool rx0 0 || Qeq_bool ry0 0 then [SRect x y width height] else
